@@ -128,6 +128,26 @@ def check(F, rep):
         rep.ob("closed-queue", same and ra == rb and bool(ra), site(sp, sh[0][0]), "start_shutdown targets the same entry.active whose queue reported Closed", skey(F, sp, "shutdown-same-client"))
         tests, _ = call_result_tests(sp, tsp[0][0])
         rep.ob("closed-queue", requires_failure(sp, sh[0][0], tests), site(sp, sh[0][0]), "start_shutdown only on the error edge of try_send_packet", skey(F, sp, "shutdown-on-error"))
+        # ... and only when the queue is Closed (the receiver's actor is gone): a Full queue
+        # (slow receiver, another client's flood) must never end the receiver's connection
+        full_edges = []
+        for b in sorted(sp.reachable(0)):
+            t = sp.blocks[b]["t"]
+            if t["k"] != "switch":
+                continue
+            l = op_local(t["d"])
+            for st in sp.blocks[b]["s"]:
+                if st["k"] == "a" and st["lhs"]["l"] == l and st["rv"]["k"] == "discr":
+                    ty = place_ty(F, sp, st["rv"]["p"]) or str(sp.locals[st["rv"]["p"]["l"]])
+                    if "TrySendError" in str(ty):
+                        # tokio::sync::mpsc::error::TrySendError: Full = 0, Closed = 1
+                        explicit = {int(v): tb for v, tb in t["targets"]}
+                        full_edges.append((b, explicit.get(0, t["otherwise"])))
+        reach_full = set()
+        for b, tg in full_edges:
+            reach_full |= reachable_fs(sp, tg)
+        rep.ob("closed-queue", bool(full_edges) and sh[0][0] not in reach_full, site(sp, sh[0][0]),
+               "start_shutdown is not reachable from the TrySendError::Full arm (%d match(es) on the try_send error): a full queue drops the packet, it does not disconnect the slow receiver" % len(full_edges), skey(F, sp, "full-never-shuts-down"))
     # handle_frame: forwarding errors are logged, never returned
     hf = body_of(F, rep, ACT + "handle_frame")
     hc = find_calls(hf, ACT + "handle_frame_send_packet")
